@@ -19,7 +19,8 @@ NEG = -1000      # the model's -inf
 
 
 def configs(ctx, rng):
-  layouts = [(1, ()), (2, ()), (0, (3,)), (1, (2,)), (2, (3, 2)), (0, (2, 3))]
+  # (continuous, categorical sizes); with power-of-two padding 3 -> 4 and 5 -> 8 continuous columns, 3 -> 4 categorical columns
+  layouts = [(1, ()), (2, ()), (0, (3,)), (1, (2,)), (2, (3, 2)), (0, (2, 3)), (3, ()), (5, ()), (3, (2,)), (0, (2, 2, 2)), (1, (2, 3, 2))]
   tables = ['interior', 'corner', 'categorical', 'plateau', 'neginf']
   allc = []
   for (nc, cats), count, batch, evals, prior, strat, table, pad in itertools.product(
@@ -27,8 +28,15 @@ def configs(ctx, rng):
     if table == 'categorical' and not cats:
       continue
     allc.append(dict(nc=nc, cats=list(cats), count=count, batch=batch, max_eval=batch * evals, prior=prior, strategy=strat, table=table, pad=pad))
-  k = 36 if not ctx.thorough else 240
-  return rng.sample(allc, k), len(allc)
+  k = 30 if not ctx.thorough else 220
+  chosen = rng.sample(allc, k)
+  # stratum: every layout that really gets padded columns, under both strategies (padding must never leak)
+  padded = [c for c in allc if c['pad'] and (c['nc'] in (3, 5) or len(c['cats']) == 3)]
+  for lay in [(3, []), (5, []), (3, [2]), (0, [2, 2, 2]), (1, [2, 3, 2])]:
+    for strat in ('eagle', 'random'):
+      pool = [c for c in padded if (c['nc'], c['cats']) == lay and c['strategy'] == strat and (ctx.thorough or c['max_eval'] <= 25)]
+      chosen += rng.sample(pool, 1 if not ctx.thorough else 3)
+  return chosen, len(allc)
 
 
 def make_table(cfg, rng):
@@ -167,6 +175,20 @@ def observe(cfg, rng):
   return rec
 
 
+def _observe_job(job):
+  cfg, seed = job
+  return observe(cfg, random.Random(seed))
+
+
+def observe_all(chosen, rng):
+  """Each configuration in its own worker process (spawned: JAX must not be forked once initialised)."""
+  import concurrent.futures as cf
+  import multiprocessing
+  jobs = [(c, rng.randrange(10 ** 9)) for c in chosen]
+  with cf.ProcessPoolExecutor(max_workers=8, mp_context=multiprocessing.get_context('spawn')) as ex:
+    return list(ex.map(_observe_job, jobs))
+
+
 def run(ctx):
   rng = random.Random(ctx.seed + 83)
   with tlc.Scratch('c19') as d:
@@ -177,9 +199,11 @@ def run(ctx):
     res = tlc.must_ok(tlc.run_tlc('VecOpt', cfg, d, workers=4), 'VecOpt/model')
     if res.violated:
       raise tlc.MachineryError('VecOpt model violates %s' % res.violated)
+    import c19_pool
+    pool_layer = c19_pool.run(ctx, d)
     chosen, total = configs(ctx, rng)
     t0 = time.time()
-    obs = [observe(c, rng) for c in chosen]
+    obs = observe_all(chosen, rng)
     ctx.log('  %d optimiser configurations (of %d enumerated) run twice each in %.0fs' % (len(obs), total, time.time() - t0))
     path = os.path.join(d, 'vo_obs.json')
     with open(path, 'w') as f:
@@ -200,8 +224,9 @@ def run(ctx):
                     {'kind': 'vecopt', 'config': c, 'table': o['table'], 'result': [{'cell': r['cell'], 'reward': r['reward'], 'cat': r['cat']} for r in o['result']],
                      'best_evaluated': sorted(o['evaluated'], reverse=True)[:3], 'prior_best': o['prior_best'], 'error': o.get('error')})
   ctx.log('  verdicts %s' % dict(counts))
-  ctx.coverage.update({'evaluations': len(obs) * 2, 'distinct_nontrivial': len(obs), 'states': res.distinct, 'transitions': res.generated,
-                       'traces_validated_against_impl': len(obs),
+  ctx.coverage.update({'evaluations': len(obs) * 2 + pool_layer['replayed'], 'distinct_nontrivial': len(obs) + pool_layer['replayed'],
+                       'states': res.distinct + pool_layer['states'], 'transitions': res.generated + pool_layer['transitions'],
+                       'traces_validated_against_impl': len(obs) + pool_layer['replayed'],
                        'rule': 'one case = (feature layout, count, batch size, evaluations, prior?, strategy, score table, padding) sampled from the enumerated configuration '
                                'space and run twice with the same seed on a piecewise-constant score function that logs every evaluated batch; all distinct and non-trivial',
                        'configurations_enumerated': total, 'verdicts': dict(counts), 'exhaustive': False})
